@@ -2,8 +2,10 @@ import Vgi.Model.RespHeaders
 /-!
 Line-protocol driver for C20. One server configuration per case, then requests.
 
-  cfg cors=0|1 maxreq=N maxresp=N maxext=N maxup=N ext=0|1 upload=0|1 proofreq=0|1 introspect=0|1
-      proxyhdrs=<a,b|-> sticky=<N|-> echo=<a,b|-> comp=0|1 hookfail=0|1 pkce=0|1 pfx=</p|-> …   -> ok
+  cfg cors=0|empty|cleared|1|star maxreq=Z maxresp=Z maxext=Z maxup=Z (negative = like 0)
+      ext=0|nil|nostorage|nostoragethr|1|1thr upload=0|cleared|1 proofreq=0|off|1 introspect=0|1
+      proxyhdrs=<a,b|-|empty> sticky=<-|Z+Z+…> echo=<a,b|-|empty|nil|cleared>
+      comp=0|neg|1|default|lvl3|lvl4|back|badlvl hookfail=0|nilhook|1 pkce=0|1 pfx=</p|-|empty> …   -> ok
   req <VERB> <path> rid=<x<hex>|absent> kind=<exit-path steering, harness only> … mint=<x<hex>>
       -> rid=<x<hex>|bad-mint> enc=<v|absent> ext=<v|absent> caps=<n=v;…|-> expose=<a,b,…|none>
 
@@ -31,31 +33,43 @@ structure St where
   cfg : Cfg
   pfx : String
 
+/-- Every setter can be called in several ways; the script names the way, the model only sees what
+the server's state then is. -/
+def way (table : List (String × Bool)) (s : String) : Option Bool :=
+  (table.find? fun p => p.1 = s).map (·.2)
+
+def nat? (s : String) : Option Nat := s.toInt?.map Int.toNat   -- negative caps behave like 0 (`> 0` guards)
+
+def emptyish (s : String) : Bool := s = "-" || s = "empty" || s = "nil" || s = "cleared"
+
 def parseCfg (ws : List String) : Option St := do
   let kvs := ws.filterMap kv
   let g := fun k => lookup kvs k
-  let b := fun k => (g k).bind bool?
-  let n := fun k => (g k).bind String.toNat?
-  let sticky ← (g "sticky").bind fun s => if s = "-" then some none else s.toNat?.map some
-  let pfx ← (g "pfx").map fun s => if s = "-" then "" else s
+  let n := fun k => (g k).bind nat?
+  let stickyArg ← g "sticky"
+  let sticky ← if stickyArg = "-" then some none
+    else ((stickyArg.splitOn "+").mapM String.toInt?).map stickyTTL
+  let pfx ← (g "pfx").map fun s => if s = "-" || s = "empty" then "" else s
   some {
     pfx := pfx
     cfg := {
-      cors := ← b "cors"
+      cors := ← (g "cors").bind (way [("0", false), ("empty", false), ("cleared", false), ("1", true), ("star", true)])
       maxRequestBytes := ← n "maxreq"
       maxResponseBytes := ← n "maxresp"
       maxExternalizedResponseBytes := ← n "maxext"
       maxUploadBytes := ← n "maxup"
-      externalStorage := ← b "ext"
-      upload := ← b "upload"
-      proofRequired := ← b "proofreq"
-      introspect := ← b "introspect"
-      extraProxyHeaders := list? (← g "proxyhdrs")
+      externalStorage := ← (g "ext").bind (way [("0", false), ("nil", false), ("nostorage", false),
+        ("nostoragethr", false), ("1", true), ("1thr", true)])
+      upload := ← (g "upload").bind (way [("0", false), ("cleared", false), ("1", true)])
+      proofRequired := ← (g "proofreq").bind (way [("0", false), ("off", false), ("1", true)])
+      introspect := ← (g "introspect").bind bool?
+      extraProxyHeaders := ← (g "proxyhdrs").map fun s => if emptyish s then [] else s.splitOn ","
       sticky := sticky
-      echoNames := list? (← g "echo")
-      compression := ← b "comp"
-      hookFails := ← b "hookfail"
-      pkce := ← b "pkce" } }
+      echoNames := ← (g "echo").map fun s => if emptyish s then [] else s.splitOn ","
+      compression := ← (g "comp").bind (way [("0", false), ("neg", false), ("1", true), ("default", true),
+        ("lvl3", true), ("lvl4", true), ("back", true), ("badlvl", true)])
+      hookFails := ← (g "hookfail").bind (way [("0", false), ("nilhook", false), ("1", true)])
+      pkce := ← (g "pkce").bind bool? } }
 
 def hexNibble (c : Char) : Option Nat :=
   if '0' ≤ c ∧ c ≤ '9' then some (c.toNat - 48)
